@@ -347,6 +347,35 @@ let run_lu (h : (string, string) Hashtbl.t) : string =
     Buffer.contents buf
   end
 
+(* complex LU (square inputs only; the shape rejections are checked on the implementation's result alone) *)
+let run_luc (h : (string, string) Hashtbl.t) : string =
+  let buf = Buffer.create 1024 in
+  let n = int_of_string (Hashtbl.find h "n") in
+  let cols = int_of_string (get h "cols" (string_of_int n)) and iplen = int_of_string (Hashtbl.find h "iplen") in
+  let ard = Array.of_list (unlist (Hashtbl.find h "ar")) and aid = Array.of_list (unlist (Hashtbl.find h "ai")) in
+  let br0 = Array.of_list (unlist (Hashtbl.find h "br")) and bi0 = Array.of_list (unlist (Hashtbl.find h "bi")) in
+  if Array.length ard <> n * cols || Array.length aid <> n * cols then "res panic\n" else begin
+  let mk d i j = let i = int_of_nat i and j = int_of_nat j in if i < n && j < cols then d.(i * cols + j) else 0.0 in
+  (match lu_decomp_complex_checked fops (nat_of_int n) (nat_of_int cols) (nat_of_int n) (nat_of_int cols) (nat_of_int iplen)
+           (mk ard) (mk aid) (fun _ -> nat_of_int 7) with
+   | LucSingular -> Buffer.add_string buf "res singular\n"
+   | LucNonSquare -> Buffer.add_string buf "res nonsquare\n"
+   | LucPivotSize -> Buffer.add_string buf "res pivotsize\n"
+   | LucOk (lr, li, ip) ->
+     Buffer.add_string buf "res ok\n";
+     let cells m = List.concat (List.init n (fun i -> List.init n (fun j -> m (nat_of_int i) (nat_of_int j)))) in
+     Buffer.add_string buf (Printf.sprintf "lur %s\n" (hxlist (cells lr)));
+     Buffer.add_string buf (Printf.sprintf "lui %s\n" (hxlist (cells li)));
+     let nip = if n = 1 then 1 else n - 1 in
+     Buffer.add_string buf (Printf.sprintf "ip %s\n" (String.concat "," (List.init nip (fun k -> string_of_int (int_of_nat (ip (nat_of_int k)))))));
+     let vec d i = let i = int_of_nat i in if i < Array.length d then d.(i) else 0.0 in
+     let (xr, xi) = lin_solve_complex fops (nat_of_int n) lr li ip (vec br0) (vec bi0) in
+     Buffer.add_string buf (Printf.sprintf "xr %s\n" (hxlist (List.init n (fun i -> xr (nat_of_int i)))));
+     Buffer.add_string buf (Printf.sprintf "xi %s\n" (hxlist (List.init n (fun i -> xi (nat_of_int i)))));
+     Buffer.add_string buf "a_untouched true\n");
+  Buffer.contents buf
+  end
+
 (* ---------------- low-level API with a scripted SolOut ---------------- *)
 type cbst = { cnt : int; trace : (float * float * float list * bool * float list) list }
 
@@ -442,6 +471,7 @@ let () =
              | "group" -> run_group h
              | "matrix" -> run_matrix h
              | "lu" -> run_lu h
+             | "luc" -> run_luc h
              | _ -> "unknown-kind\n")
           with
           | Stack_overflow -> "driver-stack-overflow\n"
